@@ -166,6 +166,16 @@ CHECKS = {
         note=TB + "C17: unbiasedness of the gradient rests on C11; continuous expectations are compared statistically (CLT band z<5.5) with closed forms obtained from exact Gaussian integrals of quadratic integrands.",
         technique="Lean 4 + Mathlib proof + differential correspondence on conjugate targets",
         design="§3 C17"),
+    "C08": dict(
+        text="Lean theorems: lane i of a Vmap trace is a coherent callee trace on lane i's arguments and score/retval are per-lane sums/stacks "
+             "(corollaries of the GFI invariants, every callee / lane count / axes); layout of a vectorised sampling site: the repaired rule "
+             "puts the lane axis first for every sample_shape and lane count, the pre-repair rule only for empty sample_shape (proved "
+             "counterexample). Tie: modular_vmap(f) vs stacking f(slice_i) and vs jax.vmap for deterministic, log-density and sampling "
+             "functions (parameter-revealing probe sampler) over in_axes {0,1,-1,2,None,tuples,pytrees}, axis_size given/inferred, sample_shape "
+             "sites, nested maps, scan/cond inside; per-lane independence with real normals; Vmap/repeat combinator sums.",
+        note=TB + "C08: open finding vmap-differing-rank (per-lane parameter shapes of differing rank raise or mis-pair); independence of lanes' draws is the sampler contract.",
+        technique="Lean 4 proof (combinator corollaries + layout model) + differential correspondence against per-slice evaluation",
+        design="§3 C08"),
 }
 
 NOT_YET = "check not built yet in this session (planned, see DESIGN.md §3/§6); not claimed"
